@@ -159,7 +159,10 @@ def read_precomputed_mesh(file):
         coordinates expressed in nanometres; and ``triangles`` is  an array
         of size Mx3 and ``uint32`` data type.
     """
-    num_vertices = struct.unpack("<I", file.read(4))[0]
+    buf = file.read(4)
+    if len(buf) != 4:
+        raise InvalidMeshDataError("The precomputed mesh data is too short")
+    num_vertices = struct.unpack("<I", buf)[0]
     # TODO handle format errors
     #
     # Use frombuffer instead of numpy.fromfile, because the latter expects a
@@ -181,7 +184,7 @@ def read_precomputed_mesh(file):
                                    "not adequate")
     flat_triangles = np.frombuffer(buf, "<I")
     triangles = np.reshape(flat_triangles, (-1, 3), order="C")
-    if np.any(triangles > num_vertices):
+    if np.any(triangles >= num_vertices):
         raise InvalidMeshDataError("The mesh references nonexistent vertices")
     return (vertices, triangles)
 
